@@ -584,7 +584,8 @@ fn b_resampler(src: &mut Src, env: &Env) -> Case {
     };
     let n = gen_len(src, cap).min(2 * cap);
     let data: Vec<u32> = (0..n as u32).map(|i| i.wrapping_mul(2654435761)).collect();
-    let (p, r) = StreamIn::new(data, vec![]);
+    let stray = stray_tags(src, n, 1024);
+    let (p, r) = StreamIn::new(data, stray);
     let (blk, o) = RationalResampler::new(r, interp, deci).expect("resampler");
     let mut c = Case::new("RationalResampler", format!("len {n} interp {interp} deci {deci}"), Box::new(blk));
     c.ins = vec![p];
@@ -601,7 +602,8 @@ fn b_resampler(src: &mut Src, env: &Env) -> Case {
 fn b_rtlsdr(src: &mut Src, env: &Env) -> Case {
     let n = gen_len(src, env.cap::<u8>());
     let data = gen_u8_vec(src, n);
-    let (p, r) = StreamIn::new(data, vec![]);
+    let stray = stray_tags(src, n, 1024);
+    let (p, r) = StreamIn::new(data, stray);
     let (blk, o) = RtlSdrDecode::new(r);
     let mut c = Case::new("RtlSdrDecode", format!("len {n}"), Box::new(blk));
     c.ins = vec![p];
@@ -794,14 +796,25 @@ fn b_stream_to_pdu(src: &mut Src, env: &Env) -> Case {
     c
 }
 
+/// Tags on an input whose block does not forward them (or on an input whose
+/// tags are documented as ignored): they must make no difference to the
+/// samples, whatever the chunking.
+fn stray_tags(src: &mut Src, n: usize, cap: usize) -> Vec<TagRec> {
+    if src.chance(1, 3) { gen_tags(src, n, cap) } else { vec![] }
+}
+
 fn b_to_text(src: &mut Src, env: &Env) -> Case {
     let nsrc = src.range(1, 3);
     let n = gen_len_small(src, env.cap::<u8>() / 8).min(600);
     let mut ins: Vec<Box<dyn InPort>> = Vec::new();
     let mut rs = Vec::new();
+    // Tags of a sample are printed with it (format not specified: with tags
+    // present only the one-shot / chunked comparison applies).
+    let tagged = src.chance(1, 3);
     for _ in 0..nsrc {
         let d = gen_u8_vec(src, n);
-        let (p, r) = StreamIn::new(d, vec![]);
+        let t = if tagged { gen_tags(src, n, env.cap::<u8>()) } else { vec![] };
+        let (p, r) = StreamIn::new(d, t);
         ins.push(p);
         rs.push(r);
     }
@@ -810,6 +823,9 @@ fn b_to_text(src: &mut Src, env: &Env) -> Case {
     c.ins = ins;
     c.outs = vec![StreamOut::new(o)];
     c.reference = Some(Box::new(move |c, complete| {
+        if tagged {
+            return Ok(());
+        }
         let mut exp = Vec::new();
         for i in 0..n {
             let line: Vec<String> = (0..nsrc).map(|k| format!("{:?}", c.in_typed::<u8>(k).data[i])).collect();
@@ -824,7 +840,8 @@ fn b_fft_stream(src: &mut Src, env: &Env) -> Case {
     let size = *src.pick(&[1usize, 2, 4, 8, 16, 3, 5]);
     let n = gen_len_small(src, env.cap::<Complex>());
     let data = gen_complex_tame(src, n);
-    let (p, r) = StreamIn::new(data, vec![]);
+    let stray = stray_tags(src, n, 1024);
+    let (p, r) = StreamIn::new(data, stray);
     let (mut blk, o) = FftStream::new(r, size);
     let threaded = src.chance(1, 3);
     if threaded {
@@ -1275,7 +1292,8 @@ fn b_au_encode(src: &mut Src, env: &Env) -> Case {
     // 2 output bytes per sample plus the header: enough to fill the output.
     let n = gen_len(src, env.cap::<u8>() / 2);
     let data = gen_f32_vec(src, n, true);
-    let (p, r) = StreamIn::new(data, vec![]);
+    let stray = stray_tags(src, n, 1024);
+    let (p, r) = StreamIn::new(data, stray);
     let rate = *src.pick(&[8000u32, 44100, 48000]);
     let (blk, o) = AuEncode::new(r, rustradio::au::Encoding::Pcm16, rate, 1);
     let mut c = Case::new("AuEncode", format!("len {n} rate {rate}"), Box::new(blk));
@@ -1397,7 +1415,8 @@ fn b_cma(src: &mut Src, env: &Env) -> Case {
             data[at] = *src.pick(&[Complex::new(f32::INFINITY, 0.0), Complex::new(0.0, f32::NEG_INFINITY), Complex::new(f32::NAN, 1.0), Complex::new(f32::MAX, f32::MAX)]);
         }
     }
-    let (p, r) = StreamIn::new(data, vec![]);
+    let stray = stray_tags(src, n, 1024);
+    let (p, r) = StreamIn::new(data, stray);
     let (blk, o) = CmaEqualizer::new(ntaps, 1.0, 0.001, r);
     let mut c = Case::new("CmaEqualizer", format!("len {n} ntaps {ntaps}"), Box::new(blk));
     c.ins = vec![p];
@@ -1477,7 +1496,8 @@ fn b_vector_source_u8(src: &mut Src, env: &Env) -> Case {
 
 fn b_null_sink(src: &mut Src, env: &Env) -> Case {
     let n = gen_len(src, env.cap::<u8>());
-    let (p, r) = StreamIn::new(gen_u8_vec(src, n), vec![]);
+    let stray = stray_tags(src, n, 1024);
+    let (p, r) = StreamIn::new(gen_u8_vec(src, n), stray);
     let blk = NullSink::new(r);
     let mut c = Case::new("NullSink", format!("len {n}"), Box::new(blk));
     c.ins = vec![p];
@@ -1506,7 +1526,8 @@ fn b_vector_sink(src: &mut Src, env: &Env) -> Case {
 
 fn b_hasher(src: &mut Src, env: &Env) -> Case {
     let n = gen_len(src, env.cap::<u8>());
-    let (p, r) = StreamIn::new(gen_u8_vec(src, n), vec![]);
+    let stray = stray_tags(src, n, 1024);
+    let (p, r) = StreamIn::new(gen_u8_vec(src, n), stray);
     let (blk, o) = rustradio::blocks::sha512(r);
     let mut c = Case::new("Hasher", format!("len {n}"), Box::new(blk));
     c.ins = vec![p];
@@ -1557,7 +1578,8 @@ fn b_wpcr(src: &mut Src, _env: &Env) -> Case {
     let np = src.range(0, 4);
     let packets: Vec<Vec<f32>> = (0..np).map(|_| { let l = src.range(40, 300); let sps = src.range(3, 9); (0..l).map(|i| if (i / sps) % 2 == 0 { 0.7 } else { -0.7 }).collect() }).collect();
     let (p, r) = NcIn::new(packets);
-    let (blk, o) = Wpcr::new(r);
+    // With a sample rate the block also tags each packet with a frequency.
+    let (blk, o) = if src.coin() { WpcrBuilder::new(r).samp_rate(*src.pick(&[50000.0f32, 1.0, 0.0])).build() } else { Wpcr::new(r) };
     let mut c = Case::new("Wpcr", format!("{np} bursts"), Box::new(blk));
     c.ins = vec![p];
     c.outs = vec![NcOut::new(o, ser_vec::<f32>)];
